@@ -198,7 +198,8 @@ Record revision := {
   fix_slice_clamp : bool;        (* SearchQuery::slice clamps instead of panicking *)
   fix_edge_origin : bool;        (* a search from an edge does not chain the origin's siblings *)
   fix_visited_chain : bool;      (* an already visited edge met in a node's edge list does not cut the list *)
-  fix_nodes_ids_alias : bool     (* insert nodes with ids + aliases re-aliases through insert_alias (undoable) *)
+  fix_nodes_ids_alias : bool;    (* insert nodes with ids + aliases re-aliases through insert_alias (undoable) *)
+  fix_empty_alias : bool         (* insert nodes / insert values reject an empty alias like insert aliases does *)
 }.
 
 Section Rev.
